@@ -210,12 +210,14 @@ pub fn expected_line(a: &Aln, refs: &[RefDesc]) -> String {
         rn(a.mrid),
         p(a.mpos),
         a.tlen.to_string(),
-        String::from_utf8_lossy(&a.seq).into_owned(),
-        qual_text(&a.qual),
+        if a.seq.is_empty() { "*".into() } else { String::from_utf8_lossy(&a.seq).into_owned() },
+        if a.qual.is_empty() { "*".into() } else { qual_text(&a.qual) },
         aux.join(" "),
     ]
     .join("\t")
 }
+
+pub static CG_CARRIER_FIELDS_ATTRIBUTED: std::sync::atomic::AtomicU64 = std::sync::atomic::AtomicU64::new(0);
 
 fn kind_char(k: Kind) -> char {
     match k {
@@ -294,6 +296,15 @@ pub fn observed_line(header: &sam::Header, rec: &dyn sam::alignment::Record) -> 
             format!("{}{}:{}", t[0] as char, t[1] as char, value_observed(v))
         })
         .collect();
+    // Known C05 (lazy-ne-eager:data-retains-CG-of-long-cigar) / C06 (sam-bam-sam:extra-CG-field-of-long-cigar):
+    // the lazy bam::Record keeps the BAM-only CG:B:I carrier field of a CIGAR with more than 65535 operations next
+    // to the resolved CIGAR. The generator never writes a CG tag, so exactly that field on exactly such a record is
+    // attributed to the listed finding (counted), not judged again here.
+    if ops.len() > 65535 {
+        let before = aux.len();
+        aux.retain(|x| !x.starts_with("CG:B:I:"));
+        CG_CARRIER_FIELDS_ATTRIBUTED.fetch_add((before - aux.len()) as u64, std::sync::atomic::Ordering::Relaxed);
+    }
     aux.sort();
     let seq: &[u8] = rb.sequence().as_ref();
     let qual: &[u8] = rb.quality_scores().as_ref();
@@ -822,7 +833,15 @@ pub const DET_CLASSES: &[&str] = &[
 ];
 
 /// Deterministic scale family (quick tier, all tiers): many records / single records larger than a BGZF block.
-pub const SCALE_QUICK: &[&str] = &["scale-many-records-10241", "scale-many-records-20481", "scale-large-record-70000", "scale-large-record-150000"];
+pub const SCALE_QUICK: &[&str] = &[
+    "scale-many-records-10241",
+    "scale-many-records-20481",
+    "scale-large-record-70000",
+    "scale-large-record-150000",
+    "scale-long-cigar-seq-qual",
+    "scale-long-cigar-seq-noqual",
+    "scale-long-cigar-noseq-noqual",
+];
 pub const SCALE_THOROUGH: &[&str] = &["scale-many-records-25000", "scale-large-record-300000"];
 
 pub const RANDOM_CLASSES: &[&str] = &["many-mixed", "multi-reference", "unmapped-only", "one-mapped", "few-long", "header-only", "multi-block", "mate-pairs"];
@@ -1042,6 +1061,71 @@ pub fn make_set(class: &str, seed: u64) -> ASet {
             z.aux.push((*b"YZ", Aux::Str(rand_str(rng, STR_CHARS, 100_000, 100_000))));
             recs.push(z);
             small(rng, &mut recs, &mut idx, 3);
+            (header_text(&refs, hd.or(Some("@HD\tVN:1.6")), &rgs, false), refs, recs)
+        }
+        // CIGARs at and above BAM's 16-bit operation count (65535 / 65536 / 70000 operations: 1M1D1M1I... on a generated
+        // reference), with SEQ and QUAL, with SEQ and QUAL `*`, with SEQ `*` and QUAL `*`, between small records
+        c if c.starts_with("scale-long-cigar-") => {
+            let variant = c.strip_prefix("scale-long-cigar-").unwrap();
+            let mut refs = make_refs(rng, 1, 300, 600);
+            refs.push(RefDesc { name: "big1".into(), seq: rand_ref(rng, 120_000) });
+            let sm = o(true, true, 100);
+            let mut recs: Vec<Aln> = Vec::new();
+            let mut idx = 0usize;
+            for n_ops in [65535usize, 65536, 70000] {
+                for _ in 0..2 {
+                    recs.push(rand_record(rng, idx, &refs[..1], &rgs, &sm));
+                    idx += 1;
+                }
+                // M I M D M I M D ... M : odd positions alternate I and D, first and last op M
+                let mut cigar: Vec<(char, usize)> = (0..n_ops).map(|i| if i % 2 == 0 { ('M', 1) } else if i % 4 == 1 { ('I', 1) } else { ('D', 1) }).collect();
+                if cigar.last().map(|o| o.0) != Some('M') {
+                    let l = cigar.len();
+                    cigar[l - 1] = ('M', 2);
+                    // keep adjacent kinds different: ... M X M(2) is fine, ... M M is not
+                    if cigar[l - 2].0 == 'M' {
+                        cigar[l - 2] = ('D', 1);
+                    }
+                }
+                let span = cigar_span(&cigar);
+                let p = rng.urange(1, refs[1].seq.len() - span + 1);
+                let mut s = Vec::new();
+                let mut rp = p - 1;
+                for &(k, l) in &cigar {
+                    match k {
+                        'M' => {
+                            s.extend_from_slice(&refs[1].seq[rp..rp + l]);
+                            rp += l;
+                        }
+                        'I' => (0..l).for_each(|_| s.push(rand_base(rng))),
+                        _ => rp += l,
+                    }
+                }
+                let mut big = rand_record(rng, idx, &refs[..1], &rgs, &o(true, false, 50));
+                idx += 1;
+                big.flags &= !(0x1 | 0x2 | 0x8 | 0x20 | 0x40 | 0x80);
+                (big.mrid, big.mpos, big.tlen) = (None, None, 0);
+                big.rid = Some(1);
+                big.pos = Some(p);
+                big.cigar = cigar;
+                match variant {
+                    "seq-qual" => {
+                        big.qual = (0..s.len()).map(|_| rng.below(61) as u8).collect();
+                        big.seq = s;
+                    }
+                    "seq-noqual" => {
+                        big.qual = Vec::new();
+                        big.seq = s;
+                    }
+                    "noseq-noqual" => {
+                        big.qual = Vec::new();
+                        big.seq = Vec::new();
+                    }
+                    v => panic!("long cigar variant {v}"),
+                }
+                recs.push(big);
+            }
+            recs.push(rand_record(rng, idx, &refs[..1], &rgs, &sm));
             (header_text(&refs, hd.or(Some("@HD\tVN:1.6")), &rgs, false), refs, recs)
         }
         c => panic!("unknown alignment set class {c}"),
